@@ -1,9 +1,10 @@
 ---------------------------- MODULE Gen_Metrics -----------------------------
 (***************************************************************************)
 (* Generator for Metrics.tla: a state is one dimension, or one dimension   *)
-(* with one value [s, e, c].  Every state is checked against the discrete laws  *)
-(* and printed as a replay case with the levels the specification gives.   *)
-(* The harness (p_ext_cells.go: opMetric) builds  deriv * 2^e  with an     *)
+(* with one value [s, e, c].  Every state is checked against the discrete *)
+(* laws and printed as a replay case (for every metric of that dimension)  *)
+(* with the levels the specification gives.                                *)
+(* The harness (p_ext_cells.go: opExtMetric) builds  deriv * 2^e  with an  *)
 (* exact power of two and takes the one-ulp neighbours with                *)
 (* math.Nextafter for the classes "above" / "below".                       *)
 (* Exponents beyond +-1000 stand for "beyond every threshold":             *)
@@ -57,9 +58,9 @@ DegenerateLaws ==
 \* ---- replay cases
 Emit ==
     IF IsMetric
-    THEN PrintT(<<"CASE", ToJson([op |-> "metricval", names |-> Names, dim |-> D,
+    THEN PrintT(<<"CASE", ToJson([op |-> "metric", kind |-> "value", names |-> Names, dim |-> D,
                                   vexp |-> [l \in 1..31 |-> ValueExp(D, l - 1)]])>>)
-    ELSE PrintT(<<"CASE", ToJson([op |-> "metric", names |-> Names, dim |-> D, s |-> V.s, e |-> V.e, c |-> V.c,
+    ELSE PrintT(<<"CASE", ToJson([op |-> "metric", kind |-> "levels", names |-> Names, dim |-> D, s |-> V.s, e |-> V.e, c |-> V.c,
                                   min |-> MinLevelOf(D, V), max |-> MaxLevelOf(D, V),
                                   closest |-> ClosestLevelsOf(D, V)])>>)
 =============================================================================
